@@ -5,9 +5,10 @@ PROPERTY = "C17"
 EXPLANATION = (
     "C17 (whole-table transformations): transpose moves (x,y) to (y,x) and twice is the identity (pointwise at a symbolic probe); rstrip removes only "
     "trailing empty rows/cells (styled empties only when aggressive), keeps every value at its coordinates and is idempotent - real table.py/row.py code "
-    "on the typed-element layer. "
+    "on the typed-element layer. set_span/del_span on the lxml model (area, overlap refusal, values untouched, restoration); to_csv()/str(table) hand every "
+    "value - 0, False and 0.0 included - to the CSV writer as it is. "
 )
-OUTSIDE = "set_span with merge=True, spans on tables larger than 3x3, the csv module itself and import_from_csv (csv.Sniffer/reader/writer are heuristics and C code: the export obligation stops at the rows handed to the writer), repeats > 2 for transpose"
+OUTSIDE = "set_span with merge=True, spans on tables larger than 3x3, the csv module itself and import_from_csv (csv.Sniffer/reader/writer are heuristics and C code: the export obligation stops at the rows handed to the writer), repeats > 2 for transpose (3 in the thorough tier)"
 ASSUMPTIONS = ["rectangular two row-runs x two cell-runs template with an optional run of trailing empty (possibly styled) cells and trailing empty rows"]
 TRUSTED = _T
 _E = ["src/odfdo/table.py:Table.transpose,rstrip,is_empty,optimize_width,_optimize_width_*", "src/odfdo/row.py:Row.rstrip,is_empty,extend_cells,traverse,minimized_width,force_width,last_cell"] + KT_ENCODES[2:3]
